@@ -528,7 +528,7 @@ fn main() {
     }
 
     // Part A
-    let rounds = if miri { 2 } else { a.pick(1_500, 12_000) as u64 };
+    let rounds = if miri { 2 } else { a.pick(1_500, 6_000) as u64 };
     let mut rng = Rng::derive(a.seed, "C18", 0);
     for round in 0..rounds {
         let p = if miri {
